@@ -20,7 +20,7 @@ use serde_json::json;
 use std::collections::{BTreeMap, BTreeSet};
 
 const KEYS: [&str; 3] = ["k", "h", "é"];
-const FIELDS: [&str; 3] = ["f", "g", "ab"];
+const FIELDS: [&str; 6] = ["f", "g", "ab", "h1", "h2", "zz"];
 
 fn val(rng: &mut Rng) -> Vec<u8> {
     match rng.below(4) {
@@ -85,6 +85,68 @@ struct Msg {
     delta: ReplicationDelta,
 }
 
+/// a local operation of part A
+enum AOp {
+    W(Vec<u8>, Option<u64>),
+    D,
+    HW(Vec<(String, Vec<u8>)>),
+    HD(Vec<String>),
+}
+
+/// run one local operation on the real `ShardReplicaState` of node `i`, emit its `L` line;
+/// returns the index of the delta it issued
+fn a_local(out: &mut Out, nodes: &mut [ShardReplicaState], sent: &mut Vec<Msg>, text: &mut String, i: usize, key: &str, op: AOp) -> Option<usize> {
+    let hk = hex(key.as_bytes());
+    let (line, delta): (String, Option<ReplicationDelta>) = match op {
+        AOp::W(v, exp) => {
+            out.count("a:write");
+            (format!("L {} W {} {} {}", i, hk, hex(&v), exp.map(|e| e.to_string()).unwrap_or("-".into())), Some(nodes[i].record_write(key.to_string(), SDS::new(v), exp)))
+        }
+        AOp::D => {
+            out.count("a:delete");
+            (format!("L {} D {}", i, hk), nodes[i].record_delete(key.to_string()))
+        }
+        AOp::HW(fs) => {
+            out.count("a:hwrite");
+            out.count(&format!("a:hwrite-fields:{}", fs.len()));
+            let mut l = format!("L {} HW {} {}", i, hk, fs.len());
+            for (f, v) in &fs {
+                l.push_str(&format!(" {} {}", hex(f.as_bytes()), hex(v)));
+            }
+            (l, Some(nodes[i].record_hash_write(key.to_string(), fs.into_iter().map(|(f, v)| (f, SDS::new(v))).collect())))
+        }
+        AOp::HD(fs) => {
+            out.count("a:hdelete");
+            out.count(&format!("a:hdel-fields:{}", fs.len()));
+            let mut l = format!("L {} HD {} {}", i, hk, fs.len());
+            for f in &fs {
+                l.push_str(&format!(" {}", hex(f.as_bytes())));
+            }
+            (l, nodes[i].record_hash_delete(key.to_string(), fs))
+        }
+    };
+    text.push_str(&line);
+    text.push(';');
+    let ans = match &delta {
+        Some(d) => format!("delta {}", MRv::from_real(&d.value).show()),
+        None => "none".into(),
+    };
+    out.op(line, ans);
+    delta.map(|d| {
+        sent.push(Msg { origin: i, key: key.to_string(), delta: d });
+        sent.len() - 1
+    })
+}
+
+/// 1..6 fields, repetitions allowed (mostly few, sometimes many)
+fn n_fields(rng: &mut Rng) -> u64 {
+    match rng.below(6) {
+        0..=2 => rng.range(1, 2),
+        3 | 4 => rng.range(3, 4),
+        _ => rng.range(5, 6),
+    }
+}
+
 fn part_a(out: &mut Out, rng: &mut Rng, corpus: Option<u8>) {
     let n = if corpus.is_some() { 3 } else { rng.range(2, 4) as usize };
     let causal = corpus.is_none() && rng.chance(1, 4);
@@ -144,56 +206,66 @@ fn part_a(out: &mut Out, rng: &mut Rng, corpus: Option<u8>) {
         let want = if kind <= 2 { 0u8 } else { 5u8 };
         let k0 = *key_kind.entry(key.clone()).or_insert(want);
         let kind = if !allow_type_change && k0 != want { if k0 == 0 { kind % 3 } else { 3 + kind % 2 } } else { kind };
-        let (line, delta): (String, Option<ReplicationDelta>) = match kind {
+        let op = match kind {
             0 | 1 => {
                 let v = if corpus.is_some() { format!("v{}", st).into_bytes() } else { val(rng) };
                 let exp = if (allow_expiry && kind == 1) && (corpus.is_some() || rng.chance(1, 2)) { Some(5000u64) } else { None };
-                out.count("a:write");
-                (
-                    format!("L {} W {} {} {}", i, hex(key.as_bytes()), hex(&v), exp.map(|e| e.to_string()).unwrap_or("-".into())),
-                    Some(nodes[i].record_write(key.clone(), SDS::new(v), exp)),
+                AOp::W(v, exp)
+            }
+            2 => AOp::D,
+            3 | 4 => {
+                let nf = if corpus.is_some() { 1 } else { n_fields(rng) };
+                AOp::HW(
+                    (0..nf)
+                        .map(|_| {
+                            fieldctr += 1;
+                            let f = if corpus.is_some() { FIELDS[(fieldctr - 1) % 2].to_string() } else { rng.pick(&FIELDS).to_string() };
+                            (f, if corpus.is_some() { vec![b'0' + fieldctr as u8] } else { val(rng) })
+                        })
+                        .collect(),
                 )
             }
-            2 => {
-                out.count("a:delete");
-                (format!("L {} D {}", i, hex(key.as_bytes())), nodes[i].record_delete(key.clone()))
-            }
-            3 | 4 => {
-                out.count("a:hwrite");
-                let nf = if corpus.is_some() { 1 } else { rng.range(1, 2) };
-                let fs: Vec<(String, Vec<u8>)> = (0..nf)
-                    .map(|_| {
-                        fieldctr += 1;
-                        let f = if corpus.is_some() { FIELDS[(fieldctr - 1) % 2].to_string() } else { rng.pick(&FIELDS).to_string() };
-                        (f, if corpus.is_some() { vec![b'0' + fieldctr as u8] } else { val(rng) })
-                    })
-                    .collect();
-                let mut l = format!("L {} HW {} {}", i, hex(key.as_bytes()), fs.len());
-                for (f, v) in &fs {
-                    l.push_str(&format!(" {} {}", hex(f.as_bytes()), hex(v)));
-                }
-                (l, Some(nodes[i].record_hash_write(key.clone(), fs.into_iter().map(|(f, v)| (f, SDS::new(v))).collect())))
-            }
-            _ => {
-                out.count("a:hdelete");
-                let fs: Vec<String> = (0..rng.range(1, 2)).map(|_| rng.pick(&FIELDS).to_string()).collect();
-                let mut l = format!("L {} HD {} {}", i, hex(key.as_bytes()), fs.len());
-                for f in &fs {
-                    l.push_str(&format!(" {}", hex(f.as_bytes())));
-                }
-                (l, nodes[i].record_hash_delete(key.clone(), fs))
-            }
+            _ => AOp::HD((0..n_fields(rng)).map(|_| rng.pick(&FIELDS).to_string()).collect()),
         };
-        text.push_str(&line);
-        text.push(';');
-        let ans = match &delta {
-            Some(d) => format!("delta {}", MRv::from_real(&d.value).show()),
-            None => "none".into(),
+        // the registers the op touches (for the write-after-receive pattern)
+        let touched: Vec<String> = match &op {
+            AOp::HW(fs) => fs.iter().map(|(f, _)| f.clone()).collect(),
+            AOp::HD(fs) => fs.clone(),
+            _ => vec![],
         };
-        out.op(line, ans);
-        if let Some(d) = delta {
-            sent.push(Msg { origin: i, key, delta: d });
+        let was_hash = matches!(op, AOp::HW(_) | AOp::HD(_));
+        let idx = a_local(out, &mut nodes, &mut sent, &mut text, i, &key, op);
+        // write-after-receive: the delta reaches another node, which at once writes one of the
+        // registers it touched
+        if let Some(idx) = idx {
+            if corpus.is_none() && !tie_open && n >= 2 && rng.chance(1, 3) {
+                let j = (i + 1 + rng.below(n as u64 - 1) as usize) % n;
+                deliver(out, &mut nodes, &sent, &mut log, j, idx, &mut text);
+                out.count("a:write-after-receive");
+                let op2 = if was_hash {
+                    let f = rng.pick(&touched).clone();
+                    if rng.chance(3, 4) { AOp::HW(vec![(f, val(rng))]) } else { AOp::HD(vec![f]) }
+                } else if rng.chance(3, 4) {
+                    AOp::W(val(rng), None)
+                } else {
+                    AOp::D
+                };
+                a_local(out, &mut nodes, &mut sent, &mut text, j, &key, op2);
+            }
         }
+    }
+    // the history of seeded/C06-hdel-keeps-outer-stamp, both replica-id orders: A HSET p f1..f4; → B;
+    // A HDEL p f1..f4; → B; B HSET p f4 z; → A
+    if corpus == Some(3) || corpus == Some(4) {
+        let (na, nb) = if corpus == Some(3) { (0, 1) } else { (1, 0) };
+        let four: Vec<String> = FIELDS[..4].iter().map(|f| f.to_string()).collect();
+        let i0 = a_local(out, &mut nodes, &mut sent, &mut text, na, "h", AOp::HW(four.iter().map(|f| (f.clone(), b"1".to_vec())).collect())).unwrap();
+        deliver(out, &mut nodes, &sent, &mut log, nb, i0, &mut text);
+        let i1 = a_local(out, &mut nodes, &mut sent, &mut text, na, "h", AOp::HD(four.clone())).unwrap();
+        deliver(out, &mut nodes, &sent, &mut log, nb, i1, &mut text);
+        let i2 = a_local(out, &mut nodes, &mut sent, &mut text, nb, "h", AOp::HW(vec![(four[3].clone(), b"z".to_vec())])).unwrap();
+        deliver(out, &mut nodes, &sent, &mut log, na, i2, &mut text);
+        out.count("a:write-after-receive");
     }
     // corpus deliveries: node 1 in order, node 2 as 2nd,3rd,1st
     if corpus == Some(0) {
@@ -258,7 +330,7 @@ fn part_a(out: &mut Out, rng: &mut Rng, corpus: Option<u8>) {
                 // commutativity + idempotence suffice here (rs_converges_two_deltas): never a listed finding
                 out.violation("C06:rs-diverge:two-deltas", &format!("a key with at most two distinct deltas (kinds {:?}) was delivered everywhere, yet the replication states differ: {:?}", mvals.iter().map(|m| m.crdt.kind_name()).collect::<Vec<_>>(), vals.iter().map(|v| v.as_ref().map(|m| strip(m).show())).collect::<Vec<_>>()), replay);
             } else if comp.is_some() {
-                out.violation("C06:rs-diverge:compatible-deltas", "all deltas of a key delivered everywhere, one kind, consistent registers, yet replication states differ", replay);
+                out.violation("C06:rs-diverge:compatible-deltas", &format!("all deltas of a key delivered everywhere, one kind, consistent registers, yet replication states differ: {:?}", vals.iter().map(|v| v.as_ref().map(|m| strip(m).show())).collect::<Vec<_>>()), replay);
             } else {
                 out.violation("C06:cross-kind-order", "type change on a key: delivery order decides the surviving content", replay);
             }
@@ -823,6 +895,16 @@ fn scenarios() -> Vec<(&'static str, usize, Vec<St>, Vec<&'static str>)> {
             R(1, "b", lww_rv(None, 30, 2, true, None)), R(1, "c", lww_rv(Some("7"), 3, 1, false, None)),
             C(0, Command::Incr("c".into())), C(0, hset1("h", "g", "3")), C(0, Command::set("b".into(), s("w"))), Sync], vec!["a", "b", "c", "h"]),
         ("x:recover-over-existing", 2, vec![C(0, Command::set("a".into(), s("v"))), R(0, "a", lww_rv(None, 30, 2, true, None))], vec!["a"]),
+        // seeded/C06-hdel-keeps-outer-stamp, both replica-id orders: a multi-field HDEL reaches a
+        // peer, which at once writes one of the deleted fields
+        ("hdel-then-remote-hset:a-b", 2, vec![
+            C(0, Command::HSet("h".into(), FIELDS[..4].iter().map(|f| (s(f), s("1"))).collect())), Sync,
+            C(0, Command::HDel("h".into(), FIELDS[..4].iter().map(|f| s(f)).collect())), Sync,
+            C(1, hset1("h", FIELDS[3], "z")), Sync], vec!["h"]),
+        ("hdel-then-remote-hset:b-a", 2, vec![
+            C(1, Command::HSet("h".into(), FIELDS[..4].iter().map(|f| (s(f), s("1"))).collect())), Sync,
+            C(1, Command::HDel("h".into(), FIELDS[..4].iter().map(|f| s(f)).collect())), Sync,
+            C(0, hset1("h", FIELDS[3], "z")), Sync], vec!["h"]),
         // stale / reordered deltas must still be re-materialised
         ("concurrent-hash-fields", 2, vec![C(0, hset1("h", "f", "1")), C(1, hset1("h", "g", "2")), Sync], vec!["h"]),
         ("reordered-to-third", 3, vec![C(0, Command::set("s".into(), s("1"))), C(0, Command::set("s".into(), s("2"))), V(1, 1), V(1, 0), V(2, 0), V(2, 1), V(2, 0)], vec!["s"]),
@@ -878,8 +960,8 @@ fn gen_cmd(rng: &mut Rng) -> Command {
         17 | 18 => Command::Append(sk, s(&sval(rng))),
         19..=21 => Command::del(if rng.chance(1, 4) { hk } else { sk }),
         22 | 23 => Command::Del((0..rng.range(2, 3)).map(|_| if rng.chance(1, 3) { rng.pick(&HKEYS).to_string() } else { rng.pick(&SKEYS).to_string() }).collect()),
-        24..=28 => Command::HSet(hk, (0..rng.range(1, 2)).map(|_| (fld(rng), s(&sval(rng)))).collect()),
-        29..=31 => Command::HDel(hk, (0..rng.range(1, 2)).map(|_| fld(rng)).collect()),
+        24..=28 => Command::HSet(hk, (0..n_fields(rng)).map(|_| (fld(rng), s(&sval(rng)))).collect()),
+        29..=31 => Command::HDel(hk, (0..n_fields(rng)).map(|_| fld(rng)).collect()),
         32..=34 => Command::HIncrBy(hk, fld(rng), *rng.pick(&[1, -3, 10, i64::MAX])),
         35 => Command::Get(sk),
         36 => Command::HGetAll(hk),
@@ -939,7 +1021,29 @@ async fn part_b(out: &mut Out, rng: &mut Rng, n_random: u64) {
                     c = gen_cmd(&mut r);
                 }
             }
-            cl.client(out, i, c).await;
+            let before = cl.sent.len();
+            cl.client(out, i, c.clone()).await;
+            // write-after-receive: what the command shipped reaches another node, which at once
+            // writes one of the registers it touched
+            if cl.sent.len() > before && r.chance(1, 4) {
+                let j = (i + 1 + r.below(n as u64 - 1) as usize) % n;
+                for idx in before..cl.sent.len() {
+                    cl.deliver(out, j, idx).await;
+                }
+                let key = cl.sent[before].1.key.clone();
+                let c2 = match &c {
+                    Command::HSet(_, fv) => Some(Command::HSet(key, vec![(r.pick(fv).0.clone(), s(&sval(&mut r)))])),
+                    Command::HDel(_, fs) => Some(Command::HSet(key, vec![(r.pick(fs).clone(), s(&sval(&mut r)))])),
+                    Command::HIncrBy(_, f, _) => Some(Command::HDel(key, vec![f.clone()])),
+                    Command::Del(_) => Some(Command::set(key, s(&sval(&mut r)))),
+                    Command::Set { .. } | Command::Incr(_) | Command::Append(..) | Command::GetSet(..) => Some(if r.chance(1, 2) { Command::Incr(key) } else { Command::del(key) }),
+                    _ => None,
+                };
+                if let Some(c2) = c2 {
+                    out.count("b:write-after-receive");
+                    cl.client(out, j, c2).await;
+                }
+            }
         }
         let complete = r.chance(5, 6);
         if complete {
@@ -1019,6 +1123,8 @@ pub fn run(a: &Args) {
     part_a(&mut out, &mut Rng::new(0xC06), Some(0));
     part_a(&mut out, &mut Rng::new(0xC06), Some(1));
     part_a(&mut out, &mut Rng::new(0xC06), Some(2));
+    part_a(&mut out, &mut Rng::new(0xC06), Some(3));
+    part_a(&mut out, &mut Rng::new(0xC06), Some(4));
     for _ in 0..a.n {
         let mut r = rng.fork();
         part_a(&mut out, &mut r, None);
@@ -1026,5 +1132,5 @@ pub fn run(a: &Args) {
     let rt = tokio::runtime::Builder::new_current_thread().enable_all().build().unwrap();
     let nb = (a.n * 2).max(40);
     rt.block_on(part_b(&mut out, &mut rng, nb));
-    out.finish("case (part A) = one cluster history: 2..4 real ShardReplicaStates, 4..40 events (local SET[PX]/DEL/HSET/HDEL on 3 colliding keys; deliveries of arbitrary earlier deltas to arbitrary nodes incl. duplicates), then usually delivery of everything missing in random order; per key the flags delivered/compat/agree/agreeexp are compared with the model; non-trivial iff some key has ≥ 2 deltas and is fully delivered. Case (part B) = one history on 2..3 real ReplicatedShardActors: 2..10 client commands (SET with NX/XX/GET/EX/PX/KEEPTTL/EXAT/PXAT, GETSET, INCR/DECR/INCRBY/DECRBY, APPEND, DEL of 1..3 keys, HSET/HDEL/HINCRBY, on keys shared between string and hash commands; one third of the histories also MSET/SETNX/GETDEL/EXPIRE/PERSIST/RENAME/RPUSH/MSETNX/FLUSHALL) interleaved with deliveries of arbitrary earlier deltas, then usually delivery of everything missing in random order with duplicates; every step is compared with the Lean glue model (reply, served keyspace, delta / merged value, supported-fragment verdict), then GET/EXISTS/HGETALL/TTL on every node and the per-key flags delivered/kind/agree/reads; non-trivial iff ≥ 2 deltas and complete delivery; plus 19 fixed scenarios. Distinct by history text");
+    out.finish("case (part A) = one cluster history: 2..4 real ShardReplicaStates, 4..40 events (local SET[PX]/DEL/HSET/HDEL (1..6 fields, repetitions) on 3 colliding keys, a third of the local ops followed by write-after-receive (the delta reaches another node, which at once writes one of the touched registers); deliveries of arbitrary earlier deltas to arbitrary nodes incl. duplicates), then usually delivery of everything missing in random order; per key the flags delivered/compat/agree/agreeexp are compared with the model; non-trivial iff some key has ≥ 2 deltas and is fully delivered. Case (part B) = one history on 2..3 real ReplicatedShardActors: 2..10 client commands (SET with NX/XX/GET/EX/PX/KEEPTTL/EXAT/PXAT, GETSET, INCR/DECR/INCRBY/DECRBY, APPEND, DEL of 1..3 keys, HSET/HDEL/HINCRBY, on keys shared between string and hash commands; one third of the histories also MSET/SETNX/GETDEL/EXPIRE/PERSIST/RENAME/RPUSH/MSETNX/FLUSHALL) interleaved with deliveries of arbitrary earlier deltas, then usually delivery of everything missing in random order with duplicates; every step is compared with the Lean glue model (reply, served keyspace, delta / merged value, supported-fragment verdict), then GET/EXISTS/HGETALL/TTL on every node and the per-key flags delivered/kind/agree/reads; non-trivial iff ≥ 2 deltas and complete delivery; plus 21 fixed scenarios. Distinct by history text");
 }
